@@ -932,7 +932,8 @@ impl World {
             }
             "vvs" => {
                 // noc.rs `handle_set_vid_verification_statement` (vendor id field alone): the record is stored
-                // at once unless it rides along with a pending AddNOC / UpdateNOC of this fail-safe
+                // at once unless it rides along with the changes staged under this fail-safe for the fabric
+                // (a pending AddNOC / UpdateNOC, a deferred fabric-scoped write)
                 let vid = 1 + (num(2) as u16 % 0xfff0);
                 let kv = self.matter.kv(self.kv.clone());
                 let mut persist = FabricPersist::new(&kv);
@@ -942,7 +943,7 @@ impl World {
                     let r: Result<(), Error> = (|| {
                         let fabric = p.fabrics.fabric_mut(fi)?;
                         fabric.set_vid_verification(Some(vid), None, None)?;
-                        let part_of_pending_fabric = p.failsafe.is_armed() && p.failsafe.has_pending_noc_for(fi);
+                        let part_of_pending_fabric = p.failsafe.has_pending_changes_for(fi);
                         if !part_of_pending_fabric {
                             persist.store(fabric)?;
                         }
